@@ -85,14 +85,14 @@ def run(ctx):
     t0 = time.time()
     s1 = ctx.proof_obligations()
     ctx.notes.append("S1 %.1fs" % (time.time() - t0))
-    n = 500 if ctx.quick else 8000
+    n = 500 if ctx.quick else 4000
     big = 6000
     if getattr(ctx, "replay", None):
         # a replay file records seed, tier and budget; the run is deterministic in them
         obj = json.load(open(ctx.replay))
         ctx.seed = int(obj.get("seed", ctx.seed))
         ctx.tier = obj.get("tier", ctx.tier)
-        n = int(obj.get("budget_programs", 500 if ctx.quick else 8000))
+        n = int(obj.get("budget_programs", 500 if ctx.quick else 4000))
         print("replaying %s: seed=%d tier=%s programs=%d" % (ctx.replay, ctx.seed, ctx.tier, n), flush=True)
     cov = {"evaluations": 0, "distinct_nontrivial": 0}
     ok, detail, stats, s3, s2, cases = _run_once(ctx, n, big, "main")
